@@ -19,7 +19,7 @@ RULE = ("histories: one encoder object and one destination packing reused "
 LEVEL_ASSUMPTIONS = [
     "model vlib/oracles/ibl.py written from the module documentation "
     "(validated on the documented Liu-Teng example at start-up)"]
-REQUIRED = {"model_comparisons": 1000, "history_dirty_dest": 500,
+REQUIRED = {"concurrent_model_decodes": 20000, "model_comparisons": 1000, "history_dirty_dest": 500,
             "pair_history_decodes": 20000, "pair_instances": 8,
             "hugearea_decodes": 20, "staircase_decodes": 18,
             "model_down_and_left": 200, "model_earlier_bin_used": 50,
@@ -34,7 +34,9 @@ def plan(tier: str, seed: int):
                 "mode": "pairs", "n": 6, "budget": 40000},
              "timeout": 900} for i in range(4)] + [
             {"name": "hugearea", "engine": "jit",
-             "args": {"mode": "hugearea", "steps": 12}, "timeout": 900}]
+             "args": {"mode": "hugearea", "steps": 12}, "timeout": 900},
+            {"name": "threads", "engine": "jit", "timeout": 900,
+             "args": {"mode": "threads", "n": 6}}]
     return [{"name": f"s{i}", "engine": "jit", "args": {"n": 1500},
              "timeout": 3000} for i in range(12)] + [
         {"name": f"p{i}", "engine": "jit", "args": {
@@ -42,7 +44,9 @@ def plan(tier: str, seed: int):
          "timeout": 3000} for i in range(12)] + [
         {"name": f"hugearea{i}", "engine": "jit",
          "args": {"mode": "hugearea", "steps": 40}, "timeout": 3000}
-        for i in range(4)]
+        for i in range(4)] + [
+        {"name": f"threads{i}", "engine": "jit", "timeout": 3000,
+         "args": {"mode": "threads", "n": 40}} for i in range(2)]
 
 
 def _enc(inst, e):
@@ -193,7 +197,71 @@ def hugearea_shard(ctx, args):
             ctx.count("staircase_decodes", 3)
 
 
+def threads_shard(ctx, args):
+    """Each thread owns its encoders and destination packings; the threads
+    decode permutations of one instance, and of a sibling instance with the
+    same number of items and storage type, at the same time (the kernels are
+    nogil). Every result is compared with the model's."""
+    from moptipyapps.binpacking2d.packing import Packing
+
+    from vlib.threads import stress
+    rng = ctx.rng
+    done = 0
+    while done < args["n"]:
+        desc = wb.gen_instance(rng, str(rng.choice(["general", "twins"])))
+        # the sibling: same item counts, other sizes within the same bin
+        sib = {**desc, "name": desc["name"] + "b", "items": [
+            [max(1, it[0] - int(rng.integers(0, 2))),
+             max(1, it[1] - int(rng.integers(0, 2))), it[2]]
+            for it in desc["items"]]}
+        try:
+            insts = [wb.make_real(desc), wb.make_real(sib)]
+        except ValueError:
+            continue
+        if insts[0].dtype != insts[1].dtype or wb.n_items(desc) > 40:
+            continue
+        descs = [desc, sib]
+        jobs_def = []
+        for which in (0, 1):
+            for _ in range(4):
+                perm = wb.gen_perm(rng, descs[which], "random")
+                for e in (1, 2):
+                    jobs_def.append((which, e, perm))
+        ref = []
+        for which, e, perm in jobs_def:
+            d = descs[which]
+            mrows, mk, _st = ibl.decode(d["W"], d["H"], d["items"], perm,
+                                        first_fit=(e == 2))
+            ref.append((mrows, mk))
+        if max(r[1] for r in ref) < 2:
+            continue
+        done += 1
+
+        def jobs_for(tid, insts=insts, jobs_def=jobs_def):
+            encs = {(w, e): _enc(insts[w], e) for w in (0, 1)
+                    for e in (1, 2)}
+            ys = [Packing(insts[0]), Packing(insts[1])]
+            xs = [wb.x_array(p, insts[w]) for w, _e, p in jobs_def]
+
+            def dec(k):
+                w, e, _p = jobs_def[k]
+                ys[w].fill(-1)
+                encs[(w, e)].decode(xs[k], ys[w])
+                return wb.rows_of(ys[w]), ys[w].n_bins
+            return [lambda k=k: dec(k) for k in range(len(jobs_def))]
+        ctx.count("concurrent_rounds")
+        if not stress(ctx, "model_decodes", jobs_for, ref,
+                      lambda a, b: a[0] == b[0] and a[1] == b[1],
+                      n_threads=int(args.get("threads", 6)),
+                      loops=int(args.get("loops", 40)),
+                      case={"kind": "threads", "desc": desc, "sibling": sib,
+                            "jobs": [[w, e, p] for w, e, p in jobs_def]}):
+            return
+
+
 def run_shard(ctx, args):
+    if args.get("mode") == "threads":
+        return threads_shard(ctx, args)
     if args.get("mode") == "pairs":
         return pairs_shard(ctx, args)
     if args.get("mode") == "hugearea":
@@ -374,6 +442,40 @@ def pairs_shard(ctx, args):
             raise
 
 
+def replay_threads(ctx, case):
+    from moptipyapps.binpacking2d.packing import Packing
+
+    from vlib.threads import stress
+    descs = [case["desc"], case["sibling"]]
+    insts = [wb.make_real(d) for d in descs]
+    jobs_def = [(w, e, p) for w, e, p in case["jobs"]]
+    ref = []
+    for w, e, perm in jobs_def:
+        d = descs[w]
+        mrows, mk, _st = ibl.decode(d["W"], d["H"], d["items"], perm,
+                                    first_fit=(e == 2))
+        ref.append((mrows, mk))
+
+    def jobs_for(tid):
+        encs = {(w, e): _enc(insts[w], e) for w in (0, 1) for e in (1, 2)}
+        ys = [Packing(insts[0]), Packing(insts[1])]
+        xs = [wb.x_array(p, insts[w]) for w, _e, p in jobs_def]
+
+        def dec(k):
+            w, e, _p = jobs_def[k]
+            ys[w].fill(-1)
+            encs[(w, e)].decode(xs[k], ys[w])
+            return wb.rows_of(ys[w]), ys[w].n_bins
+        return [lambda k=k: dec(k) for k in range(len(jobs_def))]
+    for _ in range(10):
+        if not stress(ctx, "model_decodes", jobs_for, ref,
+                      lambda a, b: a[0] == b[0] and a[1] == b[1],
+                      n_threads=6, loops=40, case=case):
+            return
+
+
 def replay(ctx, case):
+    if case.get("kind") == "threads":
+        return replay_threads(ctx, case)
     steps = [(p, m, we, wd) for p, m, we, wd in case["history"]]
     run_history(ctx, case["desc"], case["enc"], steps)
